@@ -447,7 +447,7 @@ def split_marks(t):
         return t.strip(), m, int(i)
     return t, "", None
 
-def expected_traces(case, model_out):
+def expected_traces(case, model_out, cut=True):
     """Sets case.exp (spec traces), case.marks [(marks, first-marked command index)], case.run_hists (the histories
     actually sent to goja: a history that triggers known defect B is cut just before the triggering command, because
     that defect corrupts the vm and would poison the other histories sharing the runtime)."""
@@ -460,7 +460,7 @@ def expected_traces(case, model_out):
             t = cut_async(t)
             if idx is not None and idx >= len(t.split(" ")): idx = None; m = ""
         hs = h.split(" ") if h else []
-        if "!B" in m and idx is not None and case.mode == "gen":
+        if cut and "!B" in m and idx is not None and case.mode == "gen":
             hs = hs[:idx]; t = " ".join(parts[:idx])
             run.append(" ".join(hs))
         else:
@@ -505,6 +505,8 @@ def compare(case, hline, mline=None):
             known = None
             if m and idx is not None and d is not None and d >= idx:
                 known = "A" if "!A" in m else "B"
+            elif "!B" in m and (obs[i].startswith("PANIC") or obs[i].startswith("ERR")):
+                known = "B"     # the whole history aborted: exception escaped the JS driver / Go panic (corrupted vm)
             mm.append((i, exp[i], obs[i], known))
     return mm, h.get("mech") or [], h.get("idle", "ok"), None
 
@@ -553,18 +555,19 @@ def has_stray_break(body, inloop=False):
             if s[3] is not None and has_stray_break(s[3], inloop): return True
     return False
 
-def single_mismatch(ctx, harness, model, case, allow_known=False):
+def single_mismatch(ctx, harness, model, case, allow_known=False, cut=True):
     """Run one single-history case through model and harness (fresh runtime); returns (i, exp, obs, known) or None."""
     ml = ctx.run_lines([model], [case.model_line()], timeout=60)[1]
     if not ml:
         return None
-    expected_traces(case, ml[0])
+    expected_traces(case, ml[0], cut=cut)
     rc, hl, err = ctx.run_lines([harness], [case.harness_line()], timeout=30)
     if rc == 124 or not hl:
         return (0, case.exp[0], "goja did not return (hang or crash): " + err[-200:], case.marks[0][0] and ("A" if "!A" in case.marks[0][0] else "B") or None)
     mm, _, idle, _ = compare(case, hl[0])
     if not mm and idle != "ok":
-        mm = [(0, case.exp[0] + " / idle ok", json.loads(hl[0]).get("traces", ["?"])[0] + " / " + idle, None)]
+        mm = [(0, case.exp[0] + " / idle ok", json.loads(hl[0]).get("traces", ["?"])[0] + " / " + idle,
+               "B" if (not cut and "!B" in case.marks[0][0]) else None)]
     mm = [m for m in mm if allow_known or m[3] is None]
     return mm[0] if mm else None
 
@@ -587,7 +590,7 @@ def shrink(ctx, harness, model, case, i):
     if single_mismatch(ctx, harness, model, c2) is not None:
         cur = c2
     # smaller body
-    budget = 60
+    budget = 30
     progress = True
     while progress and budget > 0:
         progress = False
@@ -606,6 +609,19 @@ def shrink(ctx, harness, model, case, i):
     return cur
 
 # ----------------------------------------------------------------------------------------- fallback oracle
+CORPUS_SIG = {}      # corpus tag -> signature recorded with a corpus replay (minimised failing input of a listed finding)
+
+def norm_ids(x):
+    """Canonical form for signatures: iterator ids are irrelevant to behaviour classes -> 0."""
+    if isinstance(x, (list, tuple)):
+        if len(x) == 5 and isinstance(x[0], int) and isinstance(x[4], list) and x[1] in (0, 1, True, False) and isinstance(x[3], int):
+            return [0] + [norm_ids(y) for y in x[1:]]
+        return [norm_ids(y) for y in x]
+    return x
+
+def sig_of(kind, c):
+    return "%s:%s" % (kind, hashlib.sha1((" ".join(tok_block(norm_ids(c.body))) + "|" + c.hists[0]).encode()).hexdigest()[:10])
+
 KNOWN_SIG = {
     "A": "goja:throw-inside-finally-entered-normally-is-caught-by-the-same-try-statements-catch",
     "B": "goja:throw-inside-finally-entered-by-generator-return-corrupts-exception-propagation",
@@ -622,14 +638,18 @@ def report_case(ctx, harness, model, case, i, exp, obs, kind, known=None):
         ctx.violation(KNOWN_SIG[known], "%s {%s} history [%s]: spec %s / goja %s" % (c.mode, c.src()[:260], c.hists[0], exp, obs),
                       replay_dict(c, exp, obs, False))
         return
+    if case.tag in CORPUS_SIG and i == 0:
+        c = Case(case.body, case.decl, case.mode, case.probe, [case.hists[0]], [case.depths[0]], [case.create[0]], case.tag)
+        return ctx.violation(CORPUS_SIG[case.tag], "%s {%s} history [%s] depths %s: spec %s / goja %s" % (c.mode, c.src()[:260], c.hists[0], c.depths[0], exp, obs),
+                             replay_dict(c, exp, obs, False))
     small = shrink(ctx, harness, model, case, i) if model else None
     c = small or Case(case.body, case.decl, case.mode, case.probe, [case.hists[i]], [case.depths[i]], [case.create[i]], case.tag)
     mm = single_mismatch(ctx, harness, model, c) if (model and small) else None
     mm = mm or (0, exp, obs, None)
-    sig = "%s:%s" % (kind, hashlib.sha1((c.tokens() + "|" + c.hists[0]).encode()).hexdigest()[:10])
-    ctx.violation(sig, "%s body {%s} history [%s] depths %s: spec %s / goja %s" %
-                  (c.mode, c.src()[:300], c.hists[0], c.depths[0], mm[1], mm[2]),
-                  replay_dict(c, mm[1], mm[2], small is not None))
+    sig = sig_of(kind, c)
+    return ctx.violation(sig, "%s body {%s} history [%s] depths %s: spec %s / goja %s" %
+                         (c.mode, c.src()[:300], c.hists[0], c.depths[0], mm[1], mm[2]),
+                         replay_dict(c, mm[1], mm[2], small is not None))
 
 # ----------------------------------------------------------------------------------------- main
 THEOREMS = 1
@@ -659,6 +679,8 @@ def build_cases(ctx):
                     d = json.load(f)
                 body = tuplify(json.loads(d["body_ast"]))
                 decl = (d["decl"][0], set(d["decl"][1]))
+                if d.get("signature"):
+                    CORPUS_SIG["corpus:" + fn] = d["signature"]
                 if d.get("mode", "gen") == "gen":
                     add_gen(body, decl, "corpus:" + fn, [d["history"]] + ex4, bool(d.get("probe")))
                     cases[-1].depths[0] = d.get("depths", cases[-1].depths[0]); cases[-1].create[0] = d.get("create", 0)
@@ -671,8 +693,8 @@ def build_cases(ctx):
         if async_ok(body):
             add_async(body, decl, "sys%d" % bi, aex)
     # 3. random bodies
-    n_ex = 30 if quick else 600
-    n_sm = 120 if quick else 2500
+    n_ex = 30 if quick else 200
+    n_sm = 120 if quick else 800
     for i in range(n_ex + n_sm):
         body = g.body()
         tries = 0
@@ -762,7 +784,7 @@ def main(ctx):
     def run_iso(ci):
         c, i = ci
         c1 = Case(c.body, c.decl, c.mode, False, [c.hists[i]], [c.depths[i]], [c.create[i]], c.tag)
-        return c1, single_mismatch(ctx, harness, model, c1, allow_known=True)
+        return c1, single_mismatch(ctx, harness, model, c1, allow_known=True, cut=False)
     with ThreadPoolExecutor(8) as ex:
         for c1, mm in ex.map(run_iso, iso):
             n_hist += 1
@@ -778,19 +800,36 @@ def main(ctx):
         ctx.sample({"mode": c.mode, "src": c.src()[:400], "history": c.hists[-1], "depths": c.depths[-1]})
     ctx.stats.update({"bodies": len(cases), "histories": n_hist, "features": dict(sorted(feats.items())),
                       "result_kinds": reskinds, "trace_lengths": dict(sorted(lens.items())), "host_depth_variants": depth_used,
-                      "exhaustive": "all 1296 histories of length 4 (hence all of length <= 4) over {next,throw,return}x{7,'pq'} for the corpus, systematic and first %d random bodies; async: all fulfil/reject histories of length <= 4" % (30 if ctx.tier == "quick" else 600)})
-    ctx.obligation("corr:gen-histories", "correspondence", not bad_gen, "%d disagreements" % len(bad_gen))
-    ctx.obligation("corr:async-histories", "correspondence", not bad_async, "%d disagreements" % len(bad_async))
-    ctx.obligation("corr:caller-vm-idle-clean", "correspondence", not idle_bad, "; ".join(i for _, i in idle_bad[:3]))
-    for (c, idle) in idle_bad[:1]:
+                      "exhaustive": "all 1296 histories of length 4 (hence all of length <= 4) over {next,throw,return}x{7,'pq'} for the corpus, systematic and first %d random bodies; async: all fulfil/reject histories of length <= 4" % (30 if ctx.tier == "quick" else 200)})
+    # concrete failing inputs first (the spec model is the judge); a disagreement whose minimised form is a listed
+    # known finding is explained, every other one breaks the correspondence obligation
+    unexplained = {"gen": len(bad_gen), "async": len(bad_async)}
+    for lst, kind in ((bad_gen, "gen"), (bad_async, "async")):
+        for (c, i, e, o) in lst[:3]:
+            if report_case(ctx, harness, model, c, i, e, o, kind) == "known":
+                unexplained[kind] -= 1
+    ctx.obligation("corr:gen-histories", "correspondence", unexplained["gen"] == 0, "%d disagreements (%d unexplained)" % (len(bad_gen), unexplained["gen"]))
+    ctx.obligation("corr:async-histories", "correspondence", unexplained["async"] == 0, "%d disagreements (%d unexplained)" % (len(bad_async), unexplained["async"]))
+    # the vm's stacks at idle: a history inside known-defect territory (marker fired) may leave them dirty — attributed
+    # to that finding; anything else is a violation of "suspension leaves the caller clean"
+    idle_unexplained = []
+    for (c, idle) in idle_bad:
         try:
             hi = int(idle.split(":")[0].split(" ")[1])
         except Exception:
             hi = 0
+        m = c.marks[hi][0] if c.marks and hi < len(c.marks) else ""
         c1 = Case(c.body, c.decl, c.mode, c.probe, [c.run_hists[hi]], [c.depths[hi]], [c.create[hi]], c.tag)
-        ctx.violation("idle:" + hashlib.sha1((c.tokens() + c.run_hists[hi]).encode()).hexdigest()[:10],
-                      "vm stacks not restored after driving {%s} with [%s]: %s" % (c.src()[:300], c.run_hists[hi], idle),
-                      replay_dict(c1, "idle ok", idle, False))
+        if m:
+            ctx.violation(KNOWN_SIG["A" if "!A" in m else "B"], "vm stacks dirty after {%s} with [%s]: %s" % (c.src()[:260], c.run_hists[hi], idle),
+                          replay_dict(c1, "idle ok", idle, False))
+        else:
+            idle_unexplained.append(idle)
+            if len(idle_unexplained) <= 2:
+                ctx.violation("idle:" + hashlib.sha1((c.tokens() + c.run_hists[hi]).encode()).hexdigest()[:10],
+                              "vm stacks not restored after driving {%s} with [%s]: %s" % (c.src()[:300], c.run_hists[hi], idle),
+                              replay_dict(c1, "idle ok", idle, False))
+    ctx.obligation("corr:caller-vm-idle-clean", "correspondence", not idle_unexplained, "; ".join(idle_unexplained[:3]))
     # mechanism: suspend / resume rebasing, implementation dumps vs the Lean model
     qs = sorted(mech)
     mo = shard_run(ctx, [model], qs, nshard=4) if qs else []
@@ -812,9 +851,6 @@ def main(ctx):
                        ("%d of %d dumps disagree with Mech.suspend/resume; first: query [%s] model [%s] goja [%s]" %
                         (len(mbad), len(qs), mbad[0][0], mbad[0][1], mbad[0][2])) if mbad else "%d dumps" % len(qs))
     # concrete failing inputs (the spec model is the judge)
-    for lst, kind in ((bad_gen, "gen"), (bad_async, "async")):
-        for (c, i, e, o) in lst[:2]:
-            report_case(ctx, harness, model, c, i, e, o, kind)
     for k in ("A", "B"):
         for (c, i, e, o) in known_hits[k][:1]:
             report_case(ctx, harness, model, c, i, e, o, c.mode, known=k)
